@@ -244,6 +244,8 @@ func (in *Interp) lenOf(v Value) int {
 		return len(x)
 	case *SymStr:
 		return len(x.b)
+	case *LazyStr:
+		return in.strLen(x)
 	case *Map:
 		if x == nil {
 			return 0
@@ -280,7 +282,7 @@ func (in *Interp) doAppend(th *Thread, fr *Frame, st types.Type, s Slice, more V
 	switch m := more.(type) {
 	case Slice:
 		add = in.sliceElems(m)
-	case string, *SymStr:
+	case string, *SymStr, *LazyStr:
 		for _, b := range in.strBytes(m) {
 			add = append(add, b)
 		}
@@ -326,7 +328,7 @@ func (in *Interp) doCopy(th *Thread, dst Slice, src Value) Value {
 	switch m := src.(type) {
 	case Slice:
 		from = in.sliceElems(m)
-	case string, *SymStr:
+	case string, *SymStr, *LazyStr:
 		for _, b := range in.strBytes(m) {
 			from = append(from, b)
 		}
